@@ -28,6 +28,75 @@ LIST_LINKS = {(HDR, "_next"): "list link: the node it points to is owned by the 
 TEMPLATES = {"bit_stream_reader.c", "tree_decode.c", "lh_new_decoder.c", "pma_common.c"}
 
 
+def decoder_slot_rules(rep, ctx, mod, prefix=""):
+    """per-member decoder objects: released and cleared by close_decoder, which runs first at every change of entry (also the
+    support rule of C13's 'nothing accumulates per member')"""
+    # ---- R3c close_decoder postcondition (support of the open_decoder assumption) ---------------------------------
+    r3c = rep.rule(prefix + "R3c", "close_decoder leaves decoder and inner_decoder NULL on every path, and runs first in lha_reader_next_file and lha_reader_free", 4)
+    cd = rep.need(r3c, mod.fn("close_decoder"), "function close_decoder")
+    if cd:
+        F = ctx.facts(cd)
+        M = Matcher(cd)
+        for f in ("decoder", "inner_decoder"):
+            fld = ("load", ("field", RD, f, ("param", 0)))
+            cut = F.edges_with_fact(("eq", fld, 0))
+            for st in stores_to_field(mod, RD, f, [cd]):
+                if is_const(st.ops[0]) and const_val(st.ops[0]) == 0:
+                    cut |= {(st.block.id, x) for x in st.block.succs}
+                    if not st.block.succs:
+                        cut.add((st.block.id, "ret"))
+            bad = []
+            for r in rets(cd):
+                if (r.block.id, "ret") in cut:
+                    continue
+                if r.block.id == 0 or F.reaches_avoiding(0, r.block.id, cut):
+                    # entry block itself may contain the store
+                    if not any(st.block.id == r.block.id for st in stores_to_field(mod, RD, f, [cd]) if is_const(st.ops[0]) and const_val(st.ops[0]) == 0):
+                        bad.append(r)
+            # a later non-NULL store would break it
+            later = [st for st in stores_to_field(mod, RD, f, [cd]) if not (is_const(st.ops[0]) and const_val(st.ops[0]) == 0)]
+            rep.check(r3c, not bad and not later, "close_decoder: %s is NULL at every return" % f, "%s:%s" % (cd.file, cd.line),
+                      "a return is reachable with %s neither tested NULL nor cleared" % f if bad else ("non-NULL store" if later else None), function=cd.cname, obj=f)
+        for caller in ("lha_reader_next_file", "lha_reader_free"):
+            g = mod.fn(caller)
+            if g:
+                cs = list(g.calls("close_decoder"))
+                rep.check(r3c, len(cs) == 1 and cs[0].block.id == 0, "%s starts with close_decoder(reader)" % caller, g.file, None, function=caller, obj="close-first")
+    # release: whatever either slot holds when close_decoder is entered has been released when it returns
+    if cd:
+        r3d = rep.rule(prefix + "R3d", "close_decoder releases what each decoder slot holds: every path to a return tests the slot NULL, frees it, or finds it aliased "
+                                       "to the other slot and frees that", 2)
+        F = ctx.facts(cd)
+        M = Matcher(cd)
+        slots = {f: ("load", ("field", RD, f, ("param", 0))) for f in ("decoder", "inner_decoder")}
+
+        def out_edges(blocks):
+            return {(b_, x) for b_ in blocks for x in cd.blocks[b_].succs}
+
+        def frees(f):
+            return {c.block.id for c in cd.insts() if c.op == "call" and mod.callee_cname(c) == "lha_decoder_free" and c.ops and M.match(slots[f], c.ops[0], {}) is not None}
+        for f, other in (("decoder", "inner_decoder"), ("inner_decoder", "decoder")):
+            nul = F.edges_with_fact(("eq", slots[f], 0))
+            fr = frees(f)
+            alias = F.edges_with_fact(("eq", slots[f], slots[other])) | F.edges_with_fact(("eq", slots[other], slots[f]))
+            cut1 = nul | out_edges(fr) | alias
+            bad = []
+            for r in rets(cd):
+                if r.block.id in fr:
+                    continue
+                if r.block.id == 0 or F.reaches_avoiding(0, r.block.id, cut1):
+                    bad.append("a return is reachable with %s neither tested NULL nor released" % f)
+                for (ab, at) in alias:
+                    fo = frees(other)
+                    cut2 = nul | out_edges(fr) | out_edges(fo)
+                    if at in fo or at in fr:
+                        continue
+                    if at == r.block.id or F.reaches_avoiding(at, r.block.id, cut2):
+                        bad.append("after finding %s == %s a return is reachable without releasing either" % (f, other))
+            rep.check(r3d, not bad, "close_decoder: %s is released or known NULL at every return" % f, "%s:%s" % (cd.file, cd.line), "; ".join(sorted(set(bad))) or None,
+                      function=cd.cname, obj="release-" + f)
+
+
 def run(tier, seed):
     rep = Report("C20", tier, "other",
                  "Static ownership analysis of lib/: (R1) each allocation result is NULL-checked before any dereference; (R2) a "
@@ -223,37 +292,7 @@ def run(tier, seed):
                 else:
                     rep.violation(r3b, inst, st.where(), "the old value of the owning field can still be live when it is overwritten (no release, move, NULL test or alias test on some path)",
                                   function=fn.cname, obj="%s.%s" % (S, f))
-        # ---- R3c close_decoder postcondition (support of the open_decoder assumption) ---------------------------------
-        r3c = rep.rule("R3c", "close_decoder leaves decoder and inner_decoder NULL on every path, and runs first in lha_reader_next_file and lha_reader_free", 4)
-        cd = rep.need(r3c, mod.fn("close_decoder"), "function close_decoder")
-        if cd:
-            F = ctx.facts(cd)
-            M = Matcher(cd)
-            for f in ("decoder", "inner_decoder"):
-                fld = ("load", ("field", RD, f, ("param", 0)))
-                cut = F.edges_with_fact(("eq", fld, 0))
-                for st in stores_to_field(mod, RD, f, [cd]):
-                    if is_const(st.ops[0]) and const_val(st.ops[0]) == 0:
-                        cut |= {(st.block.id, x) for x in st.block.succs}
-                        if not st.block.succs:
-                            cut.add((st.block.id, "ret"))
-                bad = []
-                for r in rets(cd):
-                    if (r.block.id, "ret") in cut:
-                        continue
-                    if r.block.id == 0 or F.reaches_avoiding(0, r.block.id, cut):
-                        # entry block itself may contain the store
-                        if not any(st.block.id == r.block.id for st in stores_to_field(mod, RD, f, [cd]) if is_const(st.ops[0]) and const_val(st.ops[0]) == 0):
-                            bad.append(r)
-                # a later non-NULL store would break it
-                later = [st for st in stores_to_field(mod, RD, f, [cd]) if not (is_const(st.ops[0]) and const_val(st.ops[0]) == 0)]
-                rep.check(r3c, not bad and not later, "close_decoder: %s is NULL at every return" % f, "%s:%s" % (cd.file, cd.line),
-                          "a return is reachable with %s neither tested NULL nor cleared" % f if bad else ("non-NULL store" if later else None), function=cd.cname, obj=f)
-            for caller in ("lha_reader_next_file", "lha_reader_free"):
-                g = mod.fn(caller)
-                if g:
-                    cs = list(g.calls("close_decoder"))
-                    rep.check(r3c, len(cs) == 1 and cs[0].block.id == 0, "%s starts with close_decoder(reader)" % caller, g.file, None, function=caller, obj="close-first")
+        decoder_slot_rules(rep, ctx, mod)
 
         # ---- R4 conditional ownership of LHAReader.curr_file ------------------------------------------------------
         r4 = rep.rule("R4", "LHAReader.curr_file, owned while a re-presented directory / deferred symlink is current, is released under each owning state before being overwritten and in lha_reader_free", 4)
